@@ -52,6 +52,11 @@ func (s *rsScript) live() []*rsClient {
 func (s *rsScript) opConnect(id string) {
 	r := s.rng
 	o := rsConnect{id: id, ver: []byte{4, 5, 5, 3}[r.Intn(4)], clean: r.Intn(3) == 0}
+	for _, c := range s.b.clients { // an id seen before: half of the time a Clean Start over the old session
+		if c.id == id && r.Intn(2) == 0 {
+			o.clean = true
+		}
+	}
 	if o.ver == 5 {
 		o.seiFlag = r.Intn(4) > 0
 		if o.seiFlag {
@@ -338,6 +343,33 @@ var directed = []func(s *rsScript){
 	func(s *rsScript) {
 		c := s.conn(rsConnect{id: strings.Repeat("k", 32766), ver: 4})
 		s.sub(c, "a/b", 1)
+	},
+	// Clean Start 1 over a live connection whose session has subscriptions and unacknowledged QoS 1 / 2
+	// outbound messages; the new session is persistent itself
+	func(s *rsScript) {
+		a := s.conn(rsConnect{id: "cs:1", ver: 5, sei: 3600, seiFlag: true})
+		s.sub(a, "a/+", 1)
+		s.sub(a, "x:y/#", 2)
+		p := s.conn(rsConnect{id: "p", ver: 5, clean: true})
+		s.pub(p, "a/b", "q1", 1, false, 0)
+		s.pub(p, "x:y/z", "q2", 2, false, 60)
+		s.opAnswer(p) // the publisher completes its QoS 2 flow; "cs:1" acknowledges nothing
+		n := s.conn(rsConnect{id: "cs:1", ver: 5, clean: true, sei: 600, seiFlag: true})
+		s.sub(n, "new/#", 1)
+		s.pub(p, "new/x", "q3", 1, false, 0)
+	},
+	// the same after the first connection has gone (session kept, subscriber offline while messages arrive)
+	func(s *rsScript) {
+		a := s.conn(rsConnect{id: "cs_2", ver: 5, sei: 3600, seiFlag: true})
+		s.sub(a, "a/+", 2)
+		p := s.conn(rsConnect{id: "p", ver: 4, clean: true})
+		s.pub(p, "a/b", "q1", 1, false, 0)
+		s.drop(a)
+		s.pub(p, "a/c", "q2", 2, false, 0)
+		s.opAnswer(p)
+		n := s.conn(rsConnect{id: "cs_2", ver: 5, clean: true, sei: 600, seiFlag: true})
+		s.pub(p, "a/b", "q3", 1, false, 0)
+		s.drop(n)
 	},
 	// retained: set, replace, clear with an empty payload, expire
 	func(s *rsScript) {
